@@ -82,6 +82,17 @@ def check_state(st, fs):
                 # a curve WITH scatter, queried at another failure probability first: the prediction must not depend on the call history
                 scurve = curve.copy()
                 scurve['TN'], scurve['TS'] = 4.0, 2.0
+                # curve records given for another failure probability than 50 %, with scatter: cycles() and damage() work on the median
+                # curve, so must the Gassner prediction
+                for pf in (0.1, 0.9):
+                    pcurve = scurve.copy()
+                    pcurve['failure_probability'] = pf
+                    lcp = forms['range']
+                    ngp = float(getattr(pcurve, acc).gassner_cycles(lcp))
+                    dp = ngp * float(pcurve.fatigue.damage(lcp).sum()) / total
+                    if not close(dp, 1.0, 1e-10):
+                        viol.append(('applying the collective for the Gassner cycles of Miner %s gives damage %.6g, not 1, for a curve given at %g %% failure probability with scatter' % (rule, dp, 100 * pf),
+                                     {**case, 'TN': 4.0, 'TS': 2.0, 'failure_probability': pf}, 1.0, dp))
                 for fname in ('range', 'from_to', 'collective_df', 'range_descending', 'range_rotated', 'range_int_counts', 'from_to_int_counts_rotated', 'history'):
                     if fname == 'history':
                         lc = forms['range']
